@@ -54,6 +54,7 @@ type plan struct {
 
 	aggPlan  // the aggregation pipelines (aggkinds_test.go)
 	morePlan // proposer variants (builder/blinded, Deneb block contents), exits, builder registrations (morekinds_test.go)
+	bcastPlan // the real core/bcast behind the recorder; old-release nodes (realbcast_test.go)
 
 	mu       sync.Mutex
 	served   map[eth2p0.Root]string // blocks the nodes' beacon nodes produced for propSlot: root -> "n<i>/view<v>"
